@@ -2,6 +2,7 @@ package scen
 
 import (
 	"crypto/md5"
+	"encoding/base64"
 	"encoding/hex"
 	"encoding/json"
 	"fmt"
@@ -41,7 +42,8 @@ type C14Plan struct {
 }
 
 var c14Protos = []string{"rtmp_pub", "rtmp_sub", "flv_sub", "ts_sub", "rtsp_pub", "rtsp_sub", "hls_m3u8"}
-var c14Secrets = []string{"absent", "other_param", "empty", "wrong", "right", "upper", "other", "override", "dup_rr", "dup_ww", "malformed", "extra"}
+var c14Secrets = []string{"absent", "other_param", "empty", "wrong", "right", "upper", "other", "override", "dup_rr", "dup_ww", "malformed", "extra",
+	"sid_only", "sid_wrong", "sid_right", "secret_in_value", "right_other_stream"}
 var c14AuthFlag = map[string]string{"rtmp_pub": "pub_rtmp", "rtmp_sub": "sub_rtmp", "flv_sub": "sub_httpflv", "ts_sub": "sub_httpts", "rtsp_pub": "pub_rtsp", "rtsp_sub": "sub_rtsp", "hls_m3u8": "hls_m3u8"}
 
 var c14Paths = []string{
@@ -81,12 +83,17 @@ func genC14Plan(r *sim.Rng, tier string) C14Plan {
 	case "rtspauth":
 		p.Conf.RtspAuth = true
 		p.Conf.RtspAuthMethod = r.Intn(2)
-		all := []string{"none", "right", "wrong_pass", "wrong_user", "other_method", "forged_nonce", "right"}
+		all := []string{"none", "right", "wrong_pass", "wrong_user", "other_method", "forged_nonce", "right",
+			"bad_b64", "no_colon", "three_parts", "empty_basic", "bare_digest", "bearer"}
 		for i := 0; i < n; i++ {
 			p.Creds = append(p.Creds, all[r.Intn(len(all))])
 		}
 	case "kick":
 		all := []string{"rtmp_pub", "rtmp_sub", "flv_sub", "ts_sub", "rtsp_pub", "rtsp_sub"}
+		if r.Bool(0.4) {
+			p.Conf.HlsSubKey = "simsubkey"
+			all = append(all, "hls_sub", "hls_sub")
+		}
 		for i := 0; i < 1+r.Intn(4); i++ {
 			p.Kicks = append(p.Kicks, all[r.Intn(len(all))])
 		}
@@ -158,6 +165,16 @@ func c14Query(form, key, override, stream string) (q string, valid bool) {
 		return "lal_secret=%zz&x=%", false
 	case "extra":
 		return "a=1&lal_secret=" + right + "&b=2", true
+	case "sid_only": // parameters of lal's own (HLS sub-session ids) do not stand in for the secret
+		return "session_id=" + right, false
+	case "sid_wrong":
+		return "lal_secret=" + wrong + "&session_id=x", false
+	case "sid_right":
+		return "session_id=x&lal_secret=" + right, true
+	case "secret_in_value": // the right secret, but as part of another parameter's value
+		return "x=lal_secret%3D" + right, false
+	case "right_other_stream":
+		return "lal_secret=" + md5Hex(key+"au0"), false
 	}
 	return "", false
 }
@@ -414,6 +431,20 @@ func runC14RtspAuth(k *sim.Kernel, w *World, p C14Plan) {
 			a.ForceAuth = method
 			judged = method == "basic"
 			want = method == "basic"
+		case "bad_b64", "no_colon", "three_parts", "empty_basic", "bare_digest", "bearer":
+			// credentials that cannot be parsed into a user and a password (or a complete digest): never valid; sent on the
+			// first DESCRIBE (even positions) or in answer to the challenge (odd positions)
+			a.RawAuth = map[string]string{
+				"bad_b64":     "Basic !!!not-base64!!!",
+				"no_colon":    "Basic " + base64.StdEncoding.EncodeToString([]byte("simuser")),
+				"three_parts": "Basic " + base64.StdEncoding.EncodeToString([]byte("simuser:sim:pass")),
+				"empty_basic": "Basic ",
+				"bare_digest": `Digest username="simuser"`,
+				"bearer":      "Bearer simpass",
+			}[cred]
+			if i%2 == 0 {
+				a.ForceAuth = "raw"
+			}
 		}
 		a.Connect(PortRtsp, 20+i)
 		k.Settle()
@@ -482,6 +513,10 @@ func runC14Kick(k *sim.Kernel, w *World, p C14Plan) {
 			a.Connect(PortRtsp, 20+i)
 			conn, closed = a.Conn, func() bool { return a.Closed }
 		}
+		if kind == "hls_sub" {
+			c14KickHlsSub(k, w, l, rr, i)
+			continue
+		}
 		k.Settle()
 		l.feed(k, 3)
 		if conn == nil || closed() {
@@ -506,6 +541,59 @@ func runC14Kick(k *sim.Kernel, w *World, p C14Plan) {
 	if l.pub.Closed {
 		k.Violate("C14.kick-bystander", "the publisher that was not kicked got disconnected")
 	}
+}
+
+// c14KickHlsSub: a player in HLS sub-session mode (302 to the playlist URL with a session_id) is kicked through the API.
+// Its "connection" is the session id: afterwards (the reaper runs once a second) requests carrying that id must get no
+// content and the session must no longer be listed, although the player keeps polling.
+func c14KickHlsSub(k *sim.Kernel, w *World, l *c14Live, rr *RelayRun, i int) {
+	if _, ok := k.FS.File("/simhls/kk1/playlist.m3u8"); !ok {
+		return
+	}
+	a := c14HlsGet(k, fmt.Sprintf("vic%d", i), "/hls/kk1.m3u8", 20+i)
+	loc := a.Resp.Headers["location"]
+	remote := a.Conn.RemoteAddr().String()
+	a.Leave(false)
+	if a.Resp.Status != 302 || !strings.Contains(loc, "session_id=") {
+		k.Violate("C14.hls-sub-no-session", "sub-session mode is on but the first playlist request got status %d location %q", a.Resp.Status, loc)
+		return
+	}
+	poll := func(n int) (int, int) {
+		b := c14HlsGet(k, fmt.Sprintf("vic%d-poll%d", i, n), loc, 20+i)
+		defer b.Leave(false)
+		return b.Resp.Status, len(b.Resp.Body)
+	}
+	if st, n := poll(0); st != 200 || n == 0 {
+		k.Violate("C14.hls-sub-no-session", "the redirected playlist request %q got status %d with %d bytes", loc, st, n)
+		return
+	}
+	id := rr.sessionIdOf(remote)
+	if !strings.HasPrefix(id, "HLSSUB") {
+		return
+	}
+	body, _ := json.Marshal(map[string]string{"stream_name": "kk1", "session_id": id})
+	res := w.Api(fmt.Sprintf("api-kick-%d", i), "/api/ctrl/kick_session", body)
+	k.Settle()
+	if !res.Done || res.ErrorCode() != 0 {
+		k.Violate("C14.kick-refused", "kick_session for the live hls_sub session %s answered %d / %s", id, res.Status, res.Body)
+		return
+	}
+	// the player keeps polling (which keeps the session from expiring) while the reaper gets its turn
+	for n := 1; n <= 6; n++ {
+		k.Advance(400 * time.Millisecond)
+		l.feed(k, 1)
+		st, got := poll(n)
+		if n >= 4 && st == 200 && got > 0 {
+			k.Violate("C14.kick-not-disconnected", "kick_session(%s) succeeded for the hls_sub session but %d ms later a request with its session_id still gets the playlist (%d bytes)", id, n*400, got)
+			return
+		}
+	}
+	st := w.Api(fmt.Sprintf("api-stat-hls-%d", i), "/api/stat/group?stream_name=kk1", nil)
+	if st.Done && strings.Contains(string(st.Body), `"`+id+`"`) {
+		k.Violate("C14.kick-not-disconnected", "kick_session(%s) succeeded for the hls_sub session but it is still listed by the stat API", id)
+	}
+	k.Probe("c14_kick_hls_sub")
+	k.Probe("nontrivial")
 }
 
 // C14Add is one more add_ip_blacklist call for the address that is already (or was) listed.
